@@ -406,6 +406,9 @@ func (s *State) evalPrintLogError(node *ast.Builtin) object.Object {
 		if r.Type() == object.ERROR && !doLog {
 			return r
 		}
+		if r.Type() == object.RETURN { // break/continue/return are statements, not values to operate on.
+			return s.Errorf("unexpected control type %v as argument of %s", r.(object.ReturnValue).ControlType, node.Literal())
+		}
 		if isString := r.Type() == object.STRING; isString {
 			buf.WriteString(r.(object.String).Value)
 		} else {
@@ -513,12 +516,14 @@ func (s *State) evalBuiltin(node *ast.Builtin) object.Object {
 	if oerr := argCheck(s, node.Literal(), minV, varArg, node.Parameters); oerr != nil {
 		return *oerr
 	}
-	// builtins that don't eval arguments (quote, del)
+	// builtins that don't eval arguments (quote, del) or evaluate all of them themselves, once (print, log, error).
 	switch t {
 	case token.QUOTE:
 		return s.quote(node.Parameters[0])
 	case token.DEL:
 		return s.evalDelete(node.Parameters[0])
+	case token.ERROR, token.PRINT, token.PRINTLN, token.LOG:
+		return s.evalPrintLogError(node)
 	default:
 	}
 	var val object.Object
@@ -542,8 +547,6 @@ func (s *State) evalBuiltin(node *ast.Builtin) object.Object {
 			val = object.String{Value: val.(object.Error).Value}
 		}
 		return object.MakeQuad(ErrorKey, object.NativeBoolToBooleanObject(isError), object.ValueKey, object.Value(val))
-	case token.ERROR, token.PRINT, token.PRINTLN, token.LOG:
-		return s.evalPrintLogError(node)
 	case token.FIRST:
 		return object.First(val)
 	case token.REST:
